@@ -637,7 +637,7 @@ class MappedDomain(BasicDomain):
                     interfaces = [interfaces]
                 connectivity = {}
                 for e in interfaces:
-                    connectivity[e.name] = Interface(e.name, mapping(e.minus), mapping(e.plus))
+                    connectivity[e.name] = Interface(e.name, mapping(e.minus), mapping(e.plus), ornt=e.ornt)
                 kwargs['connectivity'] = Connectivity(connectivity)
 
             name = '{}({})'.format(str(mapping.name), str(logical_domain.name))
